@@ -39,8 +39,17 @@ Op(e) ==
      /\ w' = IF good \/ crashed \/ e.c > Len(r.w) \/ ~e.after.alive THEN r.w
              ELSE [r.w EXCEPT ![e.c] = [sch |-> e.after.sch, vals |-> e.after.vals,
                                         lists |-> e.after.lists, alive |-> TRUE]]
+(* "mistyped": a user function that returns a value of another type than it declares was applied to an element, to the   *)
+(* elements of a field's array and to the elements of arrays built by the engine itself.  The engine may refuse in any   *)
+(* way it likes (it panics); what it must never do is hand out a container whose elements are not of its declared         *)
+(* element type ("arrays and maps can only be built homogeneous").  No context is touched.                                *)
+Mistyped(e) ==
+  /\ nbad' = IF Chk(e.res.out # "ill-typed", <<"a container that holds elements of another type than it declares was built, expression", e.op.k>>)
+             THEN nbad ELSE nbad + 1
+  /\ UNCHANGED w
 Next == /\ l <= Len(Rec)
-        /\ IF Rec[l].ev = "reset" THEN Reset(Rec[l]) ELSE Op(Rec[l])
+        /\ IF Rec[l].ev = "reset" THEN Reset(Rec[l])
+           ELSE IF Rec[l].op.op = "mistyped" THEN Mistyped(Rec[l]) ELSE Op(Rec[l])
         /\ l' = l + 1
 Spec == Init /\ [][Next]_vars
 
